@@ -38,9 +38,10 @@ PROPS = {
              "with restarts, plus limit probes (65536+ byte keys incl. ones whose 16-bit-truncated length and prefix equal a stored key; a 512 MiB+1 value); "
              "a rejected Put must make zero mutating FS calls; distinct_nontrivial = distinct (model, segment bytes) states at checkpoints",
         real=REAL_SEQ, stub=STUB_SEQ,
-        must_reach=dict(quick=["limit_probe_put-longkey", "limit_probe_put-longkey-alias", "limit_probe_get-longkey", "limit_probe_put-bigvalue"], thorough=[]),
-        assumptions=["a full 512 MiB value is written only by the thorough tier"],
-        mem_gb=8,
+        must_reach=dict(quick=["limit_probe_put-longkey", "limit_probe_put-longkey-alias", "limit_probe_get-longkey", "limit_probe_put-bigvalue", "max_value_roundtrip"], thorough=["max_value_roundtrip"]),
+        assumptions=["a value of exactly the 512 MiB limit is written by one worker only (about 3 GiB of memory): once in the quick tier, in every 40th run of that worker in the thorough tier; "
+                     "it is read back, taken through an unclean shutdown + recovery (with a record after it), overwritten and compacted"],
+        mem_gb=16, big_worker=True,
     ),
 }
 
@@ -315,3 +316,15 @@ PROPS["C13"] = dict(
 TEXT["C13"] = _t("sim+harness", "deterministic simulation over real system calls: seeded scheduler interleaves the statements of lock acquisition/release (yields inserted by the instrumenter) of several openers on the real fs.OS; process death injected as a fault; holder-count, recovery-iff-died and contents oracles",
                  "Seeded search over statement-level interleavings of concurrent Open/Close/die on one real directory; decides mutual exclusion, the 'locked' error, that a failed Open changes nothing, and that recovery runs exactly after a session that died.",
                  "Schedules sampled. Real kernel flock semantics; death only at API boundaries.", "DESIGN.md 4/C13, 11")
+
+# C06 under concurrency (round 3): 1 run in 4 is a concurrent run with power-loss images
+PROPS["C06"].update(
+    rule="3 of 4 runs: " + PROPS["C06"]["rule"] + ". 1 of 4 runs: a CONCURRENT run under the seeded scheduler (preload, 1-2 writers with disjoint keys issuing Sync calls or in sync-after-every-write mode, a compactor task or the background compaction worker, "
+         "optionally a dedicated Sync task and a reader) with up to 12 power-loss instants taken from its journal (biased to segment creation / sync / removal) x the prefix families; per key the recovered value must be the one after the last write that had returned "
+         "before the last completed Sync was invoked, or one written later",
+    real=REAL_SCHED, stub=STUB_SCHED, gomaxprocs=4,
+    assumptions=PL_ASSUME + ["the concurrent runs have one writer per key (exact per-key order); the writes covered by a Sync are those that had returned before it was invoked"],
+    must_reach=dict(quick=PROPS["C06"]["must_reach"]["quick"] + ["power_loss_in_concurrent_run", "sync_calls_in_concurrent_run", "writer_ran_during_compaction"], thorough=["ploss-one-file-loses-all", "power_loss_in_concurrent_run"]),
+)
+TEXT["C06"]["engine"] = "sim+harness"
+TEXT["C06"]["level_text"] = TEXT["C06"]["level_text"].replace("per key the recovered value", "sequential chains and concurrent runs (Sync racing with writers and compaction under the seeded scheduler); per key the recovered value")
